@@ -479,7 +479,19 @@ var hostileArgs = []string{"v\r\nX-Injected: 1", "a\r\n\r\nINJECTED-BODY", "x\ny
 func genHelpers(t *rapid.T) []Helper {
 	n := rapid.IntRange(0, 4).Draw(t, "nhelpers")
 	var hs []Helper
-	a := func(label string) string { return rapid.SampledFrom(hostileArgs).Draw(t, label) }
+	a := func(label string) string {
+		if rapid.IntRange(0, 2).Draw(t, label+"mode") != 0 {
+			return rapid.SampledFrom(hostileArgs).Draw(t, label)
+		}
+		// free composition of line-break fragments: every order of CR and LF around an injected field line / body
+		frag := rapid.SampledFrom([]string{"\r", "\n", "\r\n", "\n\r", "X-Injected: 1", "INJECTED-BODY", "/home", "a", " ", "\t", "v", ";", "="})
+		n := rapid.IntRange(1, 6).Draw(t, label+"n")
+		var sb strings.Builder
+		for i := 0; i < n; i++ {
+			sb.WriteString(frag.Draw(t, label+"f"))
+		}
+		return sb.String()
+	}
 	tok := func(label string) string {
 		return rapid.SampledFrom([]string{"n", "sid", "a-b", "n\r\nX-Injected: 1", "n\nm", "x y", "na;me"}).Draw(t, label)
 	}
